@@ -18,11 +18,14 @@ CHECKS = {
               'aliases) resolve back, nested to any depth (induction over the conformance derivation, chaining the generated dump '
               'field loop and the tag entry into the load key loop and the constructor step; the Union case finds the tag and '
               "dispatches); the key-spelling condition is itself a theorem on the property's name class for every "
-              'key_transform_with_dump (C01_every_dump_transform, through the casing round trips of C08); leaf inverses and the Z '
+              'key_transform_with_dump (C01_every_dump_transform, through the casing round trips of C08), and under NONE for any identifier '
+              '(C01_none_transform_any_identifier: the dump key is the name, a key that is a field name resolves to that field first); leaf inverses and the Z '
               'rewrite over all strings. Outside the fragment (skip rules, catch-all, non-str dict keys, Unions with non- '
               'dataclass members, negative timedelta) the round trip is carried by the oracle: model of dump + load tied to the code '
               'by type-directed correspondence; round trip through dict, JSON text, list, YAML, TOML and JSON-file mixins, incl. '
-              'tagged-config families with stand-alone-first histories; directed reproductions of the recorded findings '),
+              'tagged-config families with stand-alone-first histories, Unions declared in nested classes, recursive_classes and self-referential '
+              'main classes (dump first); arbitrary identifiers incl. names that coincide under case / underscore folding under NONE; directed '
+              'reproductions of the recorded findings '),
         technique='Lean 4 proof over a hand model + differential correspondence + round-trip oracle', ref='4 C01'),
     'C02': dict(
         text=('Lean theorems over a semantic model of the v1 loader: the structural round trip fromdict(cls, json(asdict(x))) = x '
@@ -87,7 +90,7 @@ CHECKS = {
         text=("Lean theorems for both engines: merge specification (own setting wins, else root's) for every modelled mergeable setting, special attributes never inherited, recursive=False hands nothing down, the travelling config passes unchanged through every container and nested instance on dump and load; v1: a class two levels down is configured with merge(own, root) and its loader contains no mention of the intermediate class's Meta; attribute sets regenerated from AbstractMeta; models tied to the code over the settings lattice x shapes x binding styles, 2- and 3-level v1 nestings with 6 link shapes"),
         technique='Lean 4 proof over hand models + generated attribute sets + differential correspondence', ref='4 C12'),
     'C13': dict(
-        text=("Lean theorems for both engines: a dict whose tag key holds K's tag is loaded by K's loader for every position of K in the Union and any other members (dispatch on the tag alone); dump-then-load through the Union gives back the member instance for every member of the round-trip fragment on both engines (C13_roundtrip_tagged, C13_v1_roundtrip_tagged); unassigned / missing tags give ParseError; the tag key is known (never unknown, never captured), also when an init=False attribute mirrors it (v1); dump appends the tag under the configured key; models tied to the code over families, tag keys, argument rotations, container positions, load-before-any-dump streams on both engines"),
+        text=("Lean theorems for both engines: a dict whose tag key holds K's tag is loaded by K's loader for every position of K in the Union and any other members (dispatch on the tag alone); dump-then-load through the Union gives back the member instance for every member of the round-trip fragment on both engines (C13_roundtrip_tagged, C13_v1_roundtrip_tagged); unassigned / missing tags give ParseError; the tag key is known (never unknown, never captured), also when an init=False attribute mirrors it (v1); dump appends the tag under the configured key; models tied to the code over families, tag keys, argument rotations, container positions, load-before-any-dump streams on both engines; Unions declared in nested classes, under recursive_classes / self-referential main classes, with forward-reference members (oracle; dump first)"),
         technique='Lean 4 proof over hand models of both engines + differential correspondence', ref='4 C13'),
     'C14': dict(
         text=('Lean theorems: every failing load of a v1 class - any JSON input, any field loaders - ends in a library error (induction over the field list + constructor step, finish step, nested classes), innermost attribution kept, inner errors pass, error lattice regenerated from errors.py; attribution at the level of documents (C14_v1_error_origin: a failing load of a dict document is either the failure of ONE constructor field loader on the value found under the key of that field, re-attributed by the handler of this class - (class, field) when the inner error names nothing yet, the inner names otherwise - or an UnknownKeysError / MissingFields of the last step naming this class; induction over the generated field loop); model tied to the code on malformed streams comparing (type, class_name, field_name / missing / unknown); oracle: isinstance JSONWizardError, str(e) returns (incl. missing AliasPath keys in nested classes), independent path-based attribution for scalar positions'),
